@@ -115,7 +115,7 @@ NA = {}
 
 # appended to the technique text of a property (additions of later sessions)
 TECH_ADD = {
- "C01": "; one case in four edits the message after building (UnsetAll*/SetAttachments/SetEmbeds with permuted or shortened lists, Part.Delete/SetContentType/SetCharset/SetContent/SetWriteFunc, SetBoundary) with the model following, one in four renders the same Msg a second time; RFC 2231 extended file-name parameters are decoded and judged like the plain ones",
+ "C01": "; one case in four edits the message after building (UnsetAll*/SetAttachments/SetEmbeds with permuted or shortened lists, Part.Delete/SetContentType/SetCharset/SetContent/SetWriteFunc, SetBoundary) with the model following, one in four renders the same Msg a second time; RFC 2231 extended file-name parameters are decoded and judged like the plain ones; message charsets through WithCharset; files from an embed.FS",
  "C02": "; the deprecated SetHeader/SetHeaderPreformatted aliases; RFC 2231 extended parameters judged like the plain ones",
  "C03": "; file-system sources whose Read fails after a successful Open (a directory in place of the file, a caller's fs.FS reporting an error mid-way)",
  "C05": "; invisible and space runes (U+00A0, U+3000, U+200B, U+FEFF) in quoted local parts",
